@@ -24,9 +24,9 @@ theorem failed_load_frame (cfg : Cfg) (sh : Shape) (s : St) (h : Coherent cfg s)
   intro s'
   obtain ⟨hpol, hcoh⟩ := failed_load_coherent cfg s h k e hfail
   have hg : ∀ x, x ∈ s'.links.g ↔ x ∈ s.links.g := fun x => by
-    rw [hcoh.g.same, h.g.same]; show x ∈ s'.pol.g ↔ _; rw [hpol]
+    rw [hcoh.g.same, h.g.same]; show LinkOf cfg.gCount s'.pol.g x ↔ _; rw [hpol]
   have hg2 : ∀ x, x ∈ s'.links.g2 ↔ x ∈ s.links.g2 := fun x => by
-    rw [hcoh.g2.same, h.g2.same]; show x ∈ s'.pol.g2 ↔ _; rw [hpol]
+    rw [hcoh.g2.same, h.g2.same]; show LinkOf cfg.g2Count s'.pol.g2 x ↔ _; rw [hpol]
   have hflags : s'.autoBuild = s.autoBuild ∧ s'.autoSave = s.autoSave ∧ s'.store = s.store := by
     show (step cfg s (.loadPolicy k)).1.autoBuild = _ ∧ (step cfg s (.loadPolicy k)).1.autoSave = _ ∧
       (step cfg s (.loadPolicy k)).1.store = _
